@@ -320,12 +320,18 @@ fn expr_bp(
                 p.error("Assignment statement found where expression expected");
             }
             if matches!(lhs_kind, IDENTIFIER | INDEXED_IDENTIFIER) {
+                let mut statement_is_complete = false;
                 if r.prefer_stmt {
                     // This only happens if the assignment is in an illegal place.  We
                     // choose not to log an additional syntax error asking for a semicolon
-                    p.expect(SEMICOLON);
+                    statement_is_complete = p.expect(SEMICOLON);
                 }
                 lhs = m.complete(p, ASSIGNMENT_STMT);
+                if statement_is_complete {
+                    // The terminating semicolon has been consumed. Whatever follows, even
+                    // if it looks like an infix operator (`a = b; -c;`), starts a new statement.
+                    break;
+                }
             } else {
                 // If LHS is not an identifier or indexed identifier, parse it as a binary
                 // expression, but log error.
